@@ -36,6 +36,7 @@ type treeCase struct {
 		Nowrap  bool   `json:"nowrap"`
 		Spell   string `json:"spell"`
 		Stdin   bool   `json:"stdin"`
+		Dest    string `json:"dest"`
 	} `json:"cfg"`
 	Expected []struct {
 		Path []string `json:"path"`
@@ -279,12 +280,33 @@ func runTreeCase(carBin string, c *treeCase, base string) (string, string) {
 	}
 	dst := filepath.Join(sand, "dst")
 	os.Mkdir(dst, 0o755)
+	dstArg := dst
+	switch c.Cfg.Dest {
+	case "link": // the output directory is named through a symbolic link
+		dstArg = filepath.Join(sand, "dst-link")
+		os.Symlink(dst, dstArg)
+	case "stale": // an earlier extraction left a longer version of every regular file
+		under := dst
+		if !c.Cfg.Nowrap {
+			under = filepath.Join(dst, wrapName)
+		}
+		filepath.Walk(src, func(p string, info os.FileInfo, err error) error {
+			if err != nil || !info.Mode().IsRegular() {
+				return nil
+			}
+			rel, _ := filepath.Rel(src, p)
+			b, _ := os.ReadFile(p)
+			os.MkdirAll(filepath.Dir(filepath.Join(under, rel)), 0o755)
+			os.WriteFile(filepath.Join(under, rel), append(append([]byte{}, b...), bytes.Repeat([]byte("STALE"), 160)...), 0o644)
+			return nil
+		})
+	}
 	var xcmd *exec.Cmd
 	if c.Cfg.Stdin {
-		xcmd = exec.Command(carBin, "extract", dst)
+		xcmd = exec.Command(carBin, "extract", dstArg)
 		xcmd.Stdin = bytes.NewReader(fileBytes) // a pipe: not seekable
 	} else {
-		xcmd = exec.Command(carBin, "extract", "-f", carPath, dst)
+		xcmd = exec.Command(carBin, "extract", "-f", carPath, dstArg)
 	}
 	xout, xerr := xcmd.CombinedOutput()
 	// "no files extracted" (exit 1) is how the tool reports a tree without any file or link; the
